@@ -538,10 +538,7 @@ func (c *Ctx) bytesToStr(fr *Frame, x Slice) Str {
 	if x.arr == nil {
 		return Str{}
 	}
-	phys := x.cap
-	if x.n.isC {
-		phys = int(x.n.cval)
-	}
+	phys := c.physLen(x)
 	bs := make([]*Term, phys)
 	for i := 0; i < phys; i++ {
 		bs[i] = x.arr.elems[x.off+i].(*Term)
@@ -612,8 +609,18 @@ func (c *Ctx) builtin(fr *Frame, name string, args []Value, call *ssa.CallCommon
 				}
 			}
 		case Slice:
-			x = c.concSliceLen(fr, x)
 			z := c.zero(call.Args[0].Type().Underlying().(*types.Slice).Elem())
+			if !x.n.isC {
+				if zt, ok := z.(*Term); ok && x.arr != nil {
+					phys := c.physLen(x)
+					for i := 0; i < phys; i++ {
+						old := x.arr.elems[x.off+i].(*Term)
+						c.assign(&x.arr.elems[x.off+i], tb.Ite(tb.Bin("bvult", tb.Int(int64(i), 64), x.n), zt, old))
+					}
+					return nil
+				}
+			}
+			x = c.concSliceLen(fr, x)
 			for i := 0; i < int(x.n.cval); i++ {
 				c.assign(&x.arr.elems[x.off+i], z)
 			}
@@ -824,3 +831,15 @@ func (c *Ctx) copyOp(fr *Frame, dst Slice, src Value) Value {
 
 var _ = math.MaxInt
 var _ = utf8.RuneError
+
+// physLen: number of physical elements that can be inside the slice's (possibly symbolic) length.
+func (c *Ctx) physLen(x Slice) int {
+	if x.n.isC {
+		return int(x.n.cval)
+	}
+	phys := x.cap
+	if ub := maxU(x.n); ub < uint64(phys) {
+		phys = int(ub)
+	}
+	return phys
+}
